@@ -79,6 +79,9 @@ RULE = ('cases: (sec_plain/sec_nobits/sec_comp) sizes {0,1,63,64,65,127,128,129,
         'contents of every specialised section class (symbol tables, SHNDX, syminfo, verneed/verdef/versym, REL, RELA, '
         'RELR, DYNAMIC, NOTE, HASH, GNU_HASH, STRTAB, .stab, ARM/RISC-V attributes) with sizes on and off the entry grid. '
         '(sis) also processor-specific p_type values decoded to names (EM_ARM, EM_AARCH64; thorough: MIPS, RISC-V). '
+        '(big) forced magnitudes, per run: two SHT_NOBITS sections above 1 MiB and one segment of 16 MiB + delta followed '
+        'by other bytes; model not run, spec = the theorems\' conclusion in compact form ((length, all zero) resp. '
+        '(length, digest) of the slice of the image). '
         'distinct = hash(kind, abstract); '
         'non-trivial = size>0 data, table with a string >= 63 bytes, any addr/sis pair')
 
